@@ -70,7 +70,7 @@ theorem prog_ormCommits {e : Env} {as : State} {i : Nat} {k : W → Pl → W} {w
     (x : Hd) (r : Rec) (hc : Claims e as (.recMsg x r)) : Prog e i as (ormCommits k x r w) := by
   unfold ormCommits
   split
-  · exact prog_foldk hk (fun c : Nat × Nat × Block => Pl.commit ⟨c.2.1, x.h, x.v⟩ c.2.2) r.commits as w h
+  · exact prog_foldk hk (fun c : Nat × Nat × Block => Pl.commit ⟨c.2.1, x.h, c.1⟩ c.2.2) r.commits as w h
       (fun c hcm => hc.2.2.2 c hcm)
   · exact Prog.of_good h
 
